@@ -32,7 +32,7 @@ ASSUMPTIONS = ["crash model = process death: completed write() calls survive, no
                "for the 'previous complete run' start state only correctness of the resumed result is demanded (whether leftovers of the old run may be reused is not specified)"]
 BUDGET = {"quick": 85.0, "thorough": 1200.0}
 
-PIPES = c03.PIPES
+PIPES = {**c03.PIPES, **c03.EXTRA_PIPES}  # incl. "none-elements": a stored None is a computed element, not a missing one
 
 
 def storage_opts(spec, tier):
@@ -282,6 +282,10 @@ def fault_case(cfg, fault, want, calls):
 def configs(tier):
     out = []
     for pipe, spec in PIPES.items():
+        if pipe in c03.EXTRA:
+            for st in ("file_array", "dict"):
+                out.append({"pipe": pipe, "storage": st, "start": "fresh"})
+            continue
         for st in storage_opts(spec, tier):
             for start in ("fresh", "previous-run"):
                 out.append({"pipe": pipe, "storage": st, "start": start})
